@@ -237,6 +237,11 @@ Proof.
         (conj (elimT (block_validP g)) (introT (block_validP g))))).
 Qed.
 Print Assumptions C04_block_constructor.
+(** the same clause on one block: Matrix({{A}}) is A, for every well-formed A whatever its entries are (no entry is
+    skipped or tested on the way: the result does not depend on the size of the entries of a block). *)
+Theorem C04_block_single (A : mat T) : wf_mat A -> mat_block Ops [:: [:: A]] = Ok A.
+Proof. exact (@mat_block_single T Ops A). Qed.
+Print Assumptions C04_block_single.
 (** Call history ("all operator spellings", objects that reached their shape through Resize / Assign / writes /
     copies; model coq/C04_State.v).  Resize(r,c) yields, from EVERY previous state of the object (also one whose
     storage does not match rows/columns), the r x c table of the old reads - for a well-formed object the old
